@@ -8,6 +8,7 @@ import RSSched.Driver.SchedDump
 import RSSched.Spec.Output
 import RSSched.Model.Swaps
 import RSSched.Model.Output
+import RSSched.Model.TransitionSearch
 namespace RSSched.Driver
 open RSSched Spec
 
@@ -172,6 +173,18 @@ def checkPipe (c : Case) : VM Unit := do
         let b := (tr.s.transitionOf vt).canon
         if a != b then
           vfail "C16" "optimised-transition-not-carried" s!"type={vt} optimiser={(a.cycles.map (fun c => c.vehicles.map (·.idx)))} schedule={(b.cycles.map (fun c => c.vehicles.map (·.idx)))}"
+      -- correspondence with the model of the transition search: the optimiser's result has no
+      -- strictly better neighbour in the model's neighbourhood (same tours as the local-search result)
+      for vt in nw.typeIdxs do
+        let typeTours : Tours := ls.s.tours.filter (fun (v, _) => ls.s.typeOf? v == some vt)
+        let res := opt.s.transitionOf vt
+        if res.cycles.length ≤ 6 && typeTours.length ≤ 10 then
+          match TransSearch.neighbors nw typeTours res with
+          | .ok ns =>
+            if ns.any (fun x => TransSearch.better x res) then
+              vdiff "C15,C16" "optimised-transition-not-a-fixpoint" s!"type={vt} result=({res.totalViolation},{res.totalCounter})"
+            vstat "pipe.transition-neighbours" ns.length
+          | .error e => vdiff "C15" "model-transition-neighbourhood-faults" s!"type={vt} {repr e}"
     else vdiff "C16" "optimiser-output-missing" ""
     -- C15: the optimiser's result is not worse than what it was given: (violation, counter)
     for vt in nw.typeIdxs do
